@@ -578,6 +578,71 @@ func genSWOutage(r *rand.Rand) *SWScenario {
 	return sc
 }
 
+// genSWRestart: work is still waiting when the provider is closed - keys handed over while the node had lost
+// connectivity for a few minutes (less than the offline delay), or while provider records could not be
+// delivered - and the provider is restarted with the same datastores; connectivity / delivery is back at the
+// restart or shortly afterwards. What was waiting has to be advertised.
+func genSWRestart(r *rand.Rand) *SWScenario {
+	sc := &SWScenario{Seed: r.Int63(), R: 2 + r.Intn(3), NPeers: 16 + r.Intn(40), NKeys: 6 + r.Intn(14), Interval: []int{60, 120}[r.Intn(2)], Workers: 2 + r.Intn(4)}
+	sc.K = sc.R
+	sc.MaxDelay = sc.Interval / 4
+	half := sc.NPeers / 2
+	second := []int{}
+	for i := 1; i <= sc.NPeers; i++ {
+		if i <= half {
+			sc.Initial = append(sc.Initial, i)
+		} else {
+			second = append(second, i)
+		}
+	}
+	var before, during, once []int
+	for k := 1; k <= sc.NKeys; k++ {
+		switch r.Intn(4) {
+		case 0:
+			before = append(before, k)
+		case 1, 2:
+			during = append(during, k)
+		default:
+			once = append(once, k)
+		}
+	}
+	sc.Ops = []SWOp{{Kind: "advance", Mins: 5}, {Kind: "settle"}}
+	if len(before) > 0 {
+		sc.Ops = append(sc.Ops, SWOp{Kind: "start", Keys: before}, SWOp{Kind: "advance", Mins: []int{3, sc.Interval / 2, sc.Interval + 20}[r.Intn(3)]}, SWOp{Kind: "settle"})
+	}
+	delivery := r.Intn(2) == 0
+	if delivery {
+		sc.Ops = append(sc.Ops, SWOp{Kind: "failsend"})
+	} else {
+		// the connectivity check runs every minute while online: after three minutes the provider knows
+		sc.Ops = append(sc.Ops, SWOp{Kind: "offline"}, SWOp{Kind: "advance", Mins: 3})
+	}
+	if len(during) > 0 {
+		sc.Ops = append(sc.Ops, SWOp{Kind: "start", Keys: during})
+	}
+	if len(once) > 0 {
+		sc.Ops = append(sc.Ops, SWOp{Kind: "once", Keys: once})
+	}
+	sc.Ops = append(sc.Ops, SWOp{Kind: "advance", Mins: []int{0, 1, 6}[r.Intn(3)]})
+	back := SWOp{Kind: "online"}
+	if delivery {
+		back = SWOp{Kind: "swapheal", Peers: second}
+	}
+	switch r.Intn(3) {
+	case 0:
+		sc.Ops = append(sc.Ops, back, SWOp{Kind: "restart"})
+	case 1:
+		sc.Ops = append(sc.Ops, SWOp{Kind: "restart"}, back)
+	default:
+		sc.Ops = append(sc.Ops, SWOp{Kind: "restart"}, SWOp{Kind: "advance", Mins: 2}, back)
+	}
+	sc.Ops = append(sc.Ops, SWOp{Kind: "advance", Mins: 12}, SWOp{Kind: "settle"})
+	for i := 0; i < 3; i++ {
+		sc.Ops = append(sc.Ops, SWOp{Kind: "advance", Mins: sc.Interval/2 + r.Intn(sc.Interval)}, SWOp{Kind: "settle"})
+	}
+	return sc
+}
+
 func TestSweepChild(t *testing.T) {
 	childMain(t, func(idx int, raw json.RawMessage, progress func(any)) any {
 		var sc SWScenario
@@ -618,6 +683,8 @@ func TestSweep(t *testing.T) {
 				scs = append(scs, genSWGrowth(r))
 			} else if i%5 == 2 && os.Getenv("VERIF_SW_NOOUTAGE") == "" {
 				scs = append(scs, genSWOutage(r))
+			} else if i%10 == 6 && os.Getenv("VERIF_SW_NORESTART") == "" {
+				scs = append(scs, genSWRestart(r))
 			} else {
 				scs = append(scs, genSWScenario(r))
 			}
